@@ -194,7 +194,7 @@ func (exp *exporter) epubGenContentOpf(title string, lang string, cover string) 
 `)
 	if cover != "" {
 		coverPath := path.Join("images", cover)
-		fmt.Fprintf(buf, "<item id=\"cover\"\n      href=\"%s\"\n", coverPath)
+		fmt.Fprintf(buf, "<item id=\"cover\"\n      href=\"%s\"\n", html.EscapeString(coverPath))
 		if epub3 {
 			buf.WriteString("      properties=\"cover-image\"\n")
 		}
@@ -235,8 +235,8 @@ func (exp *exporter) epubGenContentOpf(title string, lang string, cover string) 
 		}
 		imageBname := path.Base(imageName)
 		imagePath := path.Join("images", imageBname)
-		fmt.Fprintf(buf, "<item id=\"%s\"\n", imageBname)
-		fmt.Fprintf(buf, "      href=\"%s\"\n", imagePath)
+		fmt.Fprintf(buf, "<item id=\"%s\"\n", html.EscapeString(imageBname))
+		fmt.Fprintf(buf, "      href=\"%s\"\n", html.EscapeString(imagePath))
 		fmt.Fprintf(buf, "      media-type=\"%s\" />\n", mediaType)
 	}
 	buf.WriteString(`</manifest>
@@ -286,7 +286,7 @@ func (exp *exporter) epubGenCover(title string, cover string) {
   <body>
     <div id="cover-image" class="cover-image">
 `)
-	fmt.Fprintf(buf, "      <img class=\"cover-image\" src=\"images/%s\" alt=\"cover image\" />\n", cover)
+	fmt.Fprintf(buf, "      <img class=\"cover-image\" src=\"images/%s\" alt=\"cover image\" />\n", html.EscapeString(cover))
 	buf.WriteString(`    </div>
   </body>
 </html>
